@@ -347,6 +347,16 @@ func c18RunOp(x *Extractor, op c18Op, worker int, step *atomic.Int64, run *c18Ru
 		*tclass = 0
 		res.other = o
 		res.val = &c18Val{id: -1, payload: "other-type"}
+	case 'V': // an exclusive decode to an interface type whose decoder returns nil
+		var st fmt.Stringer
+		st, res.err = DecodeExclusive(c, op.ref, func(c Cursor, obj Object, _ bool) (fmt.Stringer, error) {
+			count("V")
+			return nil, nil
+		})
+		if st != nil {
+			res.err = fmt.Errorf("got %v for a decoder that returns nil", st)
+		}
+		res.val = &c18Val{id: -2, payload: "nil-interface"}
 	case 'Q': // a plain Decode of the pair's second type
 		var o *c18Other
 		o, res.err = Decode(c, op.ref, func(c Cursor, obj Object, _ bool) (*c18Other, error) {
@@ -398,6 +408,7 @@ func c18Programs() []c18Program {
 		{name: "X1|Z1 (exclusive decodes of one reference as two types)", prog: [][]c18Op{{op('X', a)}, {op('Z', a)}}, depth: 2},
 		{name: "Z1|Z1", prog: [][]c18Op{{op('Z', a)}, {op('Z', a)}}},
 		{name: "X1Z1|Z1X1", prog: [][]c18Op{{op('X', a), op('Z', a)}, {op('Z', a), op('X', a)}}, depth: 4, heavy: true},
+		{name: "V1V1|V1 (decoder returns a nil interface value)", prog: [][]c18Op{{op('V', a), op('V', a)}, {op('V', a)}}, depth: 3},
 		{name: "Y1|Y1", prog: [][]c18Op{{op('Y', a)}, {op('Y', a)}}},
 		{name: "Y1|X1", prog: [][]c18Op{{op('Y', a)}, {op('X', a)}}, depth: 2},
 		{name: "F1|D1", prog: [][]c18Op{{op('F', a)}, {op('D', a)}}},
@@ -542,6 +553,13 @@ func c18Judge(c *kit.Case, p c18Program, run *c18Run, objs c18Getter) {
 		}
 		if res.err != nil && res.op.kind == 'P' {
 			c.Violationf("pair-half-missing/"+p.name, "%s\n%v", ctx(), res.err)
+			continue
+		}
+		if res.op.kind == 'V' {
+			// (nil, nil) every time; a panic has been reported above
+			if res.err != nil {
+				c.Violationf("nil-interface-result/"+p.name, "%s\n%v: %v", ctx(), res.op, res.err)
+			}
 			continue
 		}
 		if res.op.kind == 'Q' || res.op.kind == 'Z' {
